@@ -17,10 +17,17 @@ SPEC = dict(
          "case, with tab/space/NUL, U+017F long s / U+212A Kelvin folds, slash before the colon, payloads) through html/template at "
          "the start of an href: was the value replaced by #ZgotmplZ; C: shape-identical benign/hostile "
          "corpus pairs (contents, file names, languages, repo/branch names, repo URLs, file/commit/line-fragment URL templates and the "
-         "query are payloads) served by the real web.Server in-process: results, repo list, search box, print, rejected query; "
+         "query are payloads; 60% of the files get 1-3 extra lines run ++ needle ++ run whose runs have lengths 0, L-1, L, L+1, L+2..61, 2L.. "
+         "around the literal limits L of the templates' function calls (100) and consist of UTF-8 continuation bytes, lead bytes without "
+         "continuation, 2/3/4-byte runes shifted by a phase so that the cut lands inside a rune, legacy double-byte text, 0xFF/0xFE; ASCII "
+         "of the same lengths in the benign twin) served by the real web.Server in-process: results, repo list, search box, print, rejected query; "
          "responses tokenised by x/net/html; D: shards built by ShardBuilder with a sub-repository path longer than the file name. "
          "non-trivial = A: >= 2 fragments or a panic; B: the escaper changed the string; C: every page / snippet with > 3 tags; "
-         "B2: the string contains ':'; E: every response; a sniffed type other than text/plain / octet-stream.",
+         "B2: the string contains ':'; E: every response; a sniffed type other than text/plain / octet-stream. "
+         "F: min(2n, n+300) calls of the functions registered in web.Funcmap through reflection with recover(): literal arguments from a call site of "
+         "the templates (75%) or generated, integers over small values / unit thresholds +-2 / int64 extremes / random 63-bit, strings of 1-3 "
+         "runs of the 9 kinds (the pad kinds + newlines) with lengths around the literal limits and around the integer arguments of the "
+         "same call (c-1, c, c+1, c+2..61, 2c.., 0..c), optional trailing newline; every F case is non-trivial.",
     trusted_base=["html/template's contextual analysis: which escaper is applied at which template position is read off the parse trees "
                   "after html/template rewrote them (translator), not modelled; that the escapers behave as Model/Web.v:esc on plain "
                   "strings is validated by the correspondence (part B) only",
@@ -42,7 +49,13 @@ SPEC = dict(
                   "ResponseWriter stored in a struct or captured by an external library is not followed)",
                   "Go int arithmetic on LineOffset+MatchLength modelled in Z (no 64-bit overflow); methods callable from templates on "
                   "data values (time.Time.Format) are not walked by the sinks translator",
-                  "Lib/RuneCount.v rune_width as utf8.DecodeRune's width (used by esc_nospace only)"],
+                  "Lib/RuneCount.v rune_width as utf8.DecodeRune's width (used by esc_nospace only)",
+                  "template functions: Model/WebFuncs.v:apply_func equals the closures registered in web.Funcmap — validated by the direct-call "
+                  "correspondence (part F) and, for bodies inside the translated Go subset, by the bounded-exhaustive comparison with "
+                  "Generated/WebFuncBodies.v (translator zz_verif_c36bodies_test.go, interpreter Model/WebFuncsAst.v: fmt.Sprintf %d/%s, "
+                  "strings.TrimSuffix, utf8.RuneStart as modelled there), not proved; the call-site translator (zz_verif_c36funcs_test.go: parse "
+                  "trees of Top's templates, FuncMap composite literals via go/types); that a call's data arguments have the parameter kinds "
+                  "is left to text/template's run-time check"],
     assumptions=["html/template applies the escapers recorded in its rewritten parse trees (third-party, trusted)",
                  "|LineOffset|, |MatchLength| < 2^62"],
 )
